@@ -241,3 +241,35 @@ where
             .map_err(BridgeError::SerializeView)
     }
 }
+
+#[cfg(feature = "crux_verif")]
+impl<A> Bridge<A>
+where
+    A: App,
+{
+    /// Read-only snapshot of the resolve registry: (id, kind) of every entry
+    pub fn verif_registry(&self) -> Vec<(u32, crate::verif::RegistryKind)> {
+        self.inner.verif_registry()
+    }
+
+    /// Read-only snapshot of the core's executor and channel state
+    pub fn verif_executor_stats(&self) -> crate::verif::ExecutorStats {
+        self.inner.verif_executor_stats()
+    }
+}
+
+#[cfg(feature = "crux_verif")]
+impl<A> BridgeWithSerializer<A>
+where
+    A: App,
+{
+    /// Read-only snapshot of the resolve registry: (id, kind) of every entry
+    pub fn verif_registry(&self) -> Vec<(u32, crate::verif::RegistryKind)> {
+        self.registry.verif_entries()
+    }
+
+    /// Read-only snapshot of the core's executor and channel state
+    pub fn verif_executor_stats(&self) -> crate::verif::ExecutorStats {
+        self.core.verif_executor_stats()
+    }
+}
